@@ -158,8 +158,11 @@ def ref_call(log):
     def call(name, args, kwargs):
         site = name
         name = base_function(name)
+        if name.startswith("<func>"):
+            detail = (tuple(snapshot_value(a) for a in args),
+                      tuple((k, snapshot_value(v)) for k, v in sorted(kwargs.items())))
         if site != name:
-            log.append((site,))
+            log.append((site, detail))
             if name == "<func>f":
                 return fn_f(*args, **kwargs)
             if name == "<func>g":
@@ -171,19 +174,19 @@ def ref_call(log):
             if name == "<func>zero":
                 return Fraction(3)
         if name == "<func>f":
-            log.append((name,))
+            log.append((name, detail))
             return fn_f(*args, **kwargs)
         if name == "<func>g":
-            log.append((name,))
+            log.append((name, detail))
             return fn_g(*args, **kwargs)
         if name == "<func>two":
-            log.append((name,))
+            log.append((name, detail))
             return fn_two(*args, **kwargs)
         if name == "<func>note":
-            log.append((name,))
+            log.append((name, detail))
             return None
         if name == "<func>zero":
-            log.append((name,))
+            log.append((name, detail))
             return Fraction(3)
         if kwargs:
             raise RefError("keyword arguments to builtin")
